@@ -859,3 +859,55 @@ Example select_merge_witnesses :
        {| o_labels := dupw_y; o_fp := 22; o_samples := [(1000, 1); (1000, 1); (1000, 1)] |} ]%Z%N
   /\ select_dup_exact_ok true mrw_rows dupw_fetch (select_series true mrw_rows dupw_fetch) = true.
 Proof. exact merge_witnesses. Qed.
+
+(* prom_select_exact_series WITHOUT its hypothesis "stored series with one label set carry one fingerprint" (a label set is
+   stored under two fingerprints when the writer's fingerprint function was switched - CityHash64 / 32-bit Bernstein - or
+   when two label orders were hashed): for every consistent database, <= 63 matchers one of which rejects "", raw path,
+   Step = 0, both statements answered by the reference interpreter, Select hands every label set to the engine ONCE, the
+   series under label set L belongs to a matching stored series with that label set and carries exactly the in-range
+   samples of ALL matching fingerprints stored under L (iff, at the level of stored sample rows), ascending in time; and
+   every in-range sample of a matching series has its label set's series in the answer. *)
+From Qryn Require Import proofs.PromSelSharedProofs.
+Theorem prom_select_exact_shared_label_sets : forall (re_match re_full : string -> string -> bool),
+  (forall v p, re_match v (anchor p) = re_full v p) ->
+  forall cluster dbname h ms db, use_raw_data h = true -> h_step h = 0 ->
+    db_ok (day_from h) (d_gin db) (d_series db) -> selective re_full ms = true -> (List.length ms <= 63)%nat ->
+    (forall sm, List.In sm (d_samples db) -> window_ok h sm = true ->
+       exists s, List.In s (d_series db) /\ t_fp s = sm_fp sm /\ (t_type s = 2 \/ t_type s = 0) /\
+                 day_from h <= t_date s /\ t_date s <= day_to h) ->
+    exists out, prom_select re_match re_full cluster dbname h ms db = Some out /\
+      NoDup (map o_labels out) /\
+      (forall o, List.In o out ->
+         (exists s, List.In s (d_series db) /\ t_fp s = o_fp o /\ (t_type s = 2 \/ t_type s = 0) /\
+                    prom_matches re_full ms (t_labels s) = true /\
+                    o_labels o = sort_labels (sort_labels (t_labels s))) /\
+         (forall x, List.In x (o_samples o) <->
+            exists sm s, List.In sm (d_samples db) /\ window_ok h sm = true /\
+                         List.In (sm_fp sm) (expected_fps re_full (day_from h) ms (d_series db)) /\
+                         List.In s (d_series db) /\ t_fp s = sm_fp sm /\ (t_type s = 2 \/ t_type s = 0) /\
+                         sort_labels (sort_labels (t_labels s)) = o_labels o /\
+                         x = (Z.quot (sm_ts_ns sm) 1000000, sm_value sm)) /\
+         StronglySorted Z.le (map fst (o_samples o))) /\
+      (forall sm, List.In sm (d_samples db) -> window_ok h sm = true ->
+         List.In (sm_fp sm) (expected_fps re_full (day_from h) ms (d_series db)) ->
+         exists o s, List.In o out /\ List.In s (d_series db) /\ t_fp s = sm_fp sm /\ (t_type s = 2 \/ t_type s = 0) /\
+                     o_labels o = sort_labels (sort_labels (t_labels s))).
+Proof. intros re_match re_full Hl. intros. now apply (prom_select_exact_shared_label_sets_lemma re_match re_full Hl). Qed.
+Print Assumptions prom_select_exact_shared_label_sets.
+
+(* the hypotheses hold on a database the old theorem excludes ({up, env=dev} under fingerprints 32 and 34, the label pairs
+   stored in two orders), and the answer there is the merged series: three samples of two fingerprints, ascending *)
+Example shared_label_set_database :
+  selective re_none w_ms = true
+  /\ (forall sm, List.In sm (d_samples sh_db) -> window_ok w_hints sm = true ->
+       exists s, List.In s (d_series sh_db) /\ t_fp s = sm_fp sm /\ (t_type s = 2 \/ t_type s = 0) /\
+                 day_from w_hints <= t_date s /\ t_date s <= day_to w_hints)
+  /\ (exists s1 s2, List.In s1 (d_series sh_db) /\ List.In s2 (d_series sh_db) /\
+        sort_labels (sort_labels (t_labels s1)) = sort_labels (sort_labels (t_labels s2)) /\ t_fp s1 <> t_fp s2)
+  /\ prom_select re_none re_none false "qryn" w_hints w_ms sh_db =
+     Some [{| o_labels := [("__name__", "up"); ("env", "dev")]; o_fp := 32;
+              o_samples := [(1700000001000, 3); (1700000002000, 4); (1700000003000, 2)] |};
+           {| o_labels := [("__name__", "up"); ("instance", "h:9090")]; o_fp := 31; o_samples := [(1700000001000, 1)] |}]%string%Z%N.
+Proof. exact shared_label_set_witness. Qed.
+Example shared_label_set_database_consistent : db_ok (day_from w_hints) (d_gin sh_db) (d_series sh_db).
+Proof. exact sh_db_ok. Qed.
